@@ -6,11 +6,21 @@ from .. import gen, impl, oracle, progs, ser, stream
 from .c05 import same_value
 
 ID = "C06"
-LEVEL = "translation_validation"
-PROPS_MODULE = None
-THEOREMS = []
-LEAN_FILES = []
-PLANNED = ["align_irrelevant", "aligned_fused_tables_match", "tensordotFused_obs_eq_blockwise"]
+LEVEL = "proof"
+PROPS_MODULE = "SymmModel.Props.C06"
+THEOREMS = [
+    "SymmModel.C06.dropMisaligned_blocks_fst",
+    "SymmModel.C06.dropMisaligned_blocks_snd",
+    "SymmModel.C06.dropMisaligned_sectors",
+    "SymmModel.C06.dropMisaligned_rest",
+    "SymmModel.C06.dropMisaligned_idempotent",
+    "SymmModel.C06.align_irrelevant_blocks",
+    "SymmModel.C06.align_irrelevant",
+    "SymmModel.C06.align_irrelevant_tensordotA",
+    "SymmModel.C06.dropMisaligned_keeps_sector_length"
+]
+LEAN_FILES = ["SymmModel.Props.C06", "SymmModel.Proofs.TdotLemmas", "SymmModel.Proofs.Accum", "SymmModel.Proofs.BlkLemmas"]
+PLANNED = ["aligned_fused_tables_match", "tensordotFused_obs_eq_blockwise", "tensordot_fuse_commute", "fermionic versions"]
 RULE = ("random contractible pairs (abelian and fermionic, even/odd parity, all symmetries, sparse operands whose "
         "present sectors differ, operands with a pre-fused free leg); modes fused/blockwise/auto compared with each "
         "other, with the Lean model, and with the explicit route align -> fuse contracted legs on both operands -> "
